@@ -105,7 +105,10 @@ func (n *decoratorNode) Call(s containerStore) (err error) {
 	}
 
 	n.state = decoratorOnStack
+	root := n.s.rootScope()
+	root.decoratorsOnStack++
 	defer func() {
+		root.decoratorsOnStack--
 		// A decorator that did not run to completion (missing or failed
 		// dependencies, an error, a panic) must be tried again the next
 		// time it is needed instead of being skipped as "on the stack".
